@@ -77,7 +77,15 @@ static Verdict judge_scene(const Scene &sc, const std::vector<std::string> &res,
       v.fail(fmt("destination differs between PIXMAN_DISABLE=\"%s\" (%s, %s) and the general-only chain (%s, %s): op %d %s/%s/%s %dx%d", cfgs[i].c_str(), dig[i].c_str(), trace[i].c_str(),
                  dig[ref].c_str(), trace[ref].c_str(), sc.op, sc.src.kind == 0 ? FORMATS[sc.src.bits.fmt].name : "nonbits",
                  sc.has_mask ? (sc.mask_is_src ? "=src" : (sc.mask.kind == 0 ? FORMATS[sc.mask.bits.fmt].name : "nonbits")) : "-", FORMATS[sc.dst.bits.fmt].name, sc.w, sc.h));
-      // known S9 signature: (separable) convolution with negative taps
+      // known S18: a 1x1 repeating bits image of a wide format (10 bpc, sRGB, float) is a "solid" for the fast paths
+      // (8-bit pipeline) but makes the general path run in floating point
+      for (const SImg *im : {&sc.src, &sc.mask}) {
+        if (im == &sc.mask && (!sc.has_mask || sc.mask_is_src)) continue;
+        if (im->kind == 0 && im->bits.w == 1 && im->bits.h == 1 && im->repeat != 0 && !is_narrow(im->bits.code())) v.known = "S18";
+      }
+      // ... and an opaque mask (no alpha channel) is dropped from the fast-path lookup (8-bit path chosen) but still
+      // handed to the general path, where its wide format selects the float pipeline
+      if (sc.has_mask && !sc.mask_is_src && sc.mask.kind == 0 && !is_narrow(sc.mask.bits.code()) && !has_alpha(sc.mask.bits.code()) && !sc.mask.component_alpha) v.known = "S18";
       return v;
     }
     // the chain the worker runs must be the one that was asked for (environment parser, constructor)
